@@ -291,6 +291,56 @@ func clientOrder(repo string) (string, error) {
 	ob("reader_idle_timer_is_fresh_for_every_packet",
 		"`Connection.reader` arms a fresh `time.After(reconnectTimeout)` in every iteration of its select loop — every received packet, pongs included, restarts the silence period; no long-lived timer that some branch could forget to reset",
 		"count "+tok("call:After")+" connReader = 1 ∧ count "+tok("call:NewTimer")+" connReader = 0 ∧ count "+tok("call:Reset")+" connReader = 0 ∧ chain "+toks("select", "call:After", "call:reconnect")+" connReader = true")
+	// every call site of encryptedConn.send in connection.go: is it inside a c.mu critical section of its function?
+	conFile, err := parser.ParseFile(fset, filepath.Join(repo, "liteclient", "connection.go"), nil, 0)
+	if err != nil {
+		return "", err
+	}
+	var unlocked []string
+	nSites := 0
+	for _, d := range conFile.Decls {
+		fd, ok := d.(*ast.FuncDecl)
+		if !ok || fd.Body == nil {
+			continue
+		}
+		locked := false
+		bad := false
+		for _, t := range tokensOf(fd) {
+			switch t {
+			case "call:mu.Lock":
+				locked = true
+			case "call:mu.Unlock":
+				locked = false
+			case "call:econn.send":
+				nSites++
+				if !locked {
+					bad = true
+				}
+			}
+		}
+		if bad {
+			unlocked = append(unlocked, fd.Name.Name)
+		}
+	}
+	sort.Strings(unlocked)
+	fmt.Fprintf(&b, "/-- functions of connection.go that call encryptedConn.send OUTSIDE a Connection.mu critical section of their own (source order: Lock … Unlock / deferred Unlock): %s; call sites in total: %d -/\n", strings.Join(unlocked, ", "), nSites)
+	code := func(name string) int { // a stable numbering of the function names that may legitimately appear
+		switch name {
+		case "sendAuthRequest":
+			return 1
+		case "sendAuthComplete":
+			return 2
+		}
+		return 1000 + len(name)
+	}
+	var codes []string
+	for _, n := range unlocked {
+		codes = append(codes, fmt.Sprint(code(n)))
+	}
+	fmt.Fprintf(&b, "def sendSitesOutsideMu : List Nat := [%s]\n\ndef sendSites : Nat := %d\n\n", strings.Join(codes, ", "), nSites)
+	ob("every_socket_write_is_under_mu",
+		"EVERY call of encryptedConn.send in connection.go is inside a Connection.mu critical section — Send, and through it the keep-alive goroutine — except the two authentication steps: sendAuthRequest (1) runs while the status is Connecting, when Send and ping refuse to write, and sendAuthComplete (2) is called by handleAuthResponse, which holds the mutex. One cipher stream, never two writers",
+		"sendSitesOutsideMu = [2, 1] ∧ sendSites = 3")
 	b.WriteString("end TongoGen.ClientOrder\n")
 	return b.String(), nil
 }
